@@ -914,6 +914,12 @@ void Exec::check_hostile(int ci) {
   if (!c.begun || !w.accepted(ci)) return;
   size_t undelivered = std::min(c.out.size(), c.wire_stream.size());
   size_t delivered = c.wire_stream.size() - undelivered;
+  // only what the bus has actually READ can be held against it (it stops reading from a connection whose
+  // undelivered messages exceed max_incoming_bytes); the handshake bytes come first in the socket
+  if (c.end) {
+    uint64_t stream_at = (uint64_t)(c.out_base + c.out.size()) - c.wire_stream.size();   // socket offset at which wire_stream starts
+    delivered = c.end->peer_consumed > stream_at ? std::min<size_t>(delivered, (size_t)(c.end->peer_consumed - stream_at)) : 0;
+  }
   wire::Limits wl;
   if (lim_cfg.max_message_size >= 0) wl.max_message_size = (uint32_t)lim_cfg.max_message_size;
   wl.max_unix_fds_available = 0;
@@ -1250,13 +1256,16 @@ void Exec::setup() {
   lim.reply_timeout = plan.C("lim.reply_timeout", -1);
   lim.auth_timeout = plan.C("lim.auth_timeout", -1);
   lim.max_outgoing_bytes = plan.C("lim.out_bytes", -1);
-  if (lim.max_outgoing_bytes >= 0) {
+  lim.max_incoming_bytes = plan.C("lim.in_bytes", -1);   // the bus stops reading from a connection whose undelivered messages exceed it
+  long out_fds_limit = plan.C("lim.out_fds", -1);
+  if (lim.max_outgoing_bytes >= 0 || out_fds_limit >= 0) {
     long limit = lim.max_outgoing_bytes;
-    md.queue_full = [this, limit](int r) {
-      // white-box read of the very number the bus compares (dbus_connection_get_outgoing_size of the bus-side connection)
+    md.queue_full = [this, limit, out_fds_limit](int r) {
+      // white-box read of the very numbers the bus compares (outgoing bytes / descriptors of the bus-side connection)
       for (DBusConnection *conn : w.live_conns) {
         auto it = w.conn_to_client.find(conn);
-        if (it != w.conn_to_client.end() && it->second == r) return dbus_connection_get_outgoing_size(conn) > limit;
+        if (it != w.conn_to_client.end() && it->second == r)
+          return (limit >= 0 && dbus_connection_get_outgoing_size(conn) > limit) || (out_fds_limit >= 0 && dbus_connection_get_outgoing_unix_fds(conn) > out_fds_limit);
       }
       return false;
     };
